@@ -21,6 +21,8 @@ type AStep struct {
 	AckMode int    `json:"ackmode"` // 0: iss+1, 1: iss, 2: iss+2, 3: iss+1+2^31, 4: iss+1+AckVal, 5: absolute
 	AckVal  uint32 `json:"ackval"`
 	Len     int    `json:"len"`
+	// Stale: kinds without the ACK flag (syn, rst) carry the acknowledgement number anyway
+	Stale bool `json:"stale,omitempty"`
 }
 
 type ActiveCase struct {
@@ -92,8 +94,16 @@ func runActive(c ActiveCase) *evid.Failure {
 			seg.Flags, seg.Seq = codec.SYN, c.PeerISS
 			seg.Opts = codec.OptMSS(1460)
 			peerSynSent = true
+			if st.Stale {
+				seg.Ack = ack
+				evid.Label("active:ack-field-set-without-ACK-flag")
+			}
 		case "rst":
 			seg.Flags, seg.Seq = codec.RST, c.PeerISS+1
+			if st.Stale {
+				seg.Ack = ack
+				evid.Label("active:ack-field-set-without-ACK-flag")
+			}
 		case "rstack":
 			seg.Flags, seg.Seq, seg.Ack = codec.RST|codec.ACK, c.PeerISS+1, ack
 		case "ack":
@@ -276,6 +286,9 @@ func genActive(rt *rapid.T) ActiveCase {
 		st.AckVal = rapid.OneOf(rapid.Uint32Range(1, 5), rapid.Uint32()).Draw(rt, "ackval")
 		if st.Kind == "ack" {
 			st.Len = rapid.SampledFrom([]int{0, 0, 5}).Draw(rt, "len")
+		}
+		if st.Kind == "syn" || st.Kind == "rst" {
+			st.Stale = rapid.Bool().Draw(rt, "stale")
 		}
 		c.Steps = append(c.Steps, st)
 	}
